@@ -71,8 +71,16 @@ def mk(cfg, ts, directed=False, window=None):
     return g, pairs
 
 
+def same_ratio(res, num, den):
+    """res is the ratio num/den.  M8: when the code's operands are symbolic, CrossHair's '/' is an exact real, for which
+    res * den == num holds; when they are concrete, res is the correctly rounded float num/den."""
+    if res == num / den:
+        return True
+    return sbool(res * den == num)
+
+
 def eq(res, num, den):
-    return res == num / den and Fraction(num, den) == Fraction(num, den) and (0 <= num <= den)
+    return same_ratio(res, num, den) and (0 <= num <= den)
 
 
 def stat_body(cfg, ts):
@@ -98,7 +106,7 @@ def stat_body(cfg, ts):
     W = sum(len(pres[n]) for n in V)
     if not eq(g.coverage(), W, nT * nV):
         return False
-    if not eq(g.avg_number_of_nodes(), W, nT):
+    if not same_ratio(g.avg_number_of_nodes(), W, nT):          # a mean, not a ratio in [0,1]
         return False
     for n in V:
         if not eq(g.node_contribution(n), len(pres[n]), nT):
@@ -136,7 +144,7 @@ def stat_body(cfg, ts):
         if denom == 0:
             if nd != 0:
                 return False
-        elif nd != numer / denom:
+        elif not same_ratio(nd, numer, denom):
             return False
     for k in T:
         nk = [n for n in V if k in pres[n]]
@@ -189,7 +197,7 @@ def iet_body(cfg, ts):
 
 
 for shape in SHAPES:
-    REG.add("stats_%s" % shape, T_stat, stat_body, cfg=dict(shape=shape), tier="quick" if shape in ("two", "two_n2", "tri") else "thorough",
+    REG.add("stats_%s" % shape, T_stat, stat_body, cfg=dict(shape=shape), tier="quick" if shape in ("two", "two_n2") else "thorough",
             timeout=1200, tags=["overlap"], twins=1,
             bounds="DynGraph on nodes 0,1,2 with interactions %s (u, v, run lengths-1), unbounded symbolic run starts (all relative "
                    "positions), explicit snapshot counter" % (SHAPES[shape],),
